@@ -269,7 +269,51 @@ def norm_cache(F, rep, rid):
         raise AnalysisBroken("%s: no run-time recomputation of active_cvc_square_norm found" % rid)
 
 
+def r6(F, rep, rid="C07-R6"):
+    rep.rule(rid, "the force subtracted from the next total-force measurement is the force that was applied: the member taken "
+                       "off `ft` under subtractAppliedForce is assigned, outside its reset, only from the member that "
+                       "communicate_forces() hands to the components (the sum of all biases on the variable, including those "
+                       "acting on its actual value)")
+    from .rules_c10 import lvalue_writes
+    props = F.one("colvar::calc_colvar_properties")
+    sub = None
+    for w, t in lvalue_writes(props):
+        if X.key(t, props) == "this.ft" and w.get("op") == "-=":
+            r = X.kids(w)[1] if w["k"] != "CXXOperatorCallExpr" else X.call_args(w)[1]
+            sub = X.re_strip(X.key(r, props))
+    if sub is None or not sub.startswith("this."):
+        rep.add(rid, "subtract|site", props.loc(), "calc_colvar_properties() no longer subtracts a remembered applied force from ft", False, func=props.q)
+        return
+    comm = F.one("colvar::communicate_forces")
+    applied = set()
+    for c in X.calls(comm):
+        if X.callee_name(c) == "apply_force" and X.call_args(c):
+            for m in comm.walk(X.call_args(c)[0]):
+                if m["k"] == "MemberExpr" and X.key(m, comm).startswith("this.") and "colvarvalue" in comm.typestr(m.get("t")):
+                    applied.add(X.key(m, comm))
+    if not applied:
+        raise AnalysisBroken("%s: force handed to the components in communicate_forces() not found" % rid)
+    n = 0
+    for f in F.funcs.values():
+        if f.cls != "colvar" or "/src/" not in f.file:
+            continue
+        for w, t in lvalue_writes(f):
+            if X.re_strip(X.key(t, f)) != sub or w.get("op") != "=":
+                continue
+            r = X.kids(w)[1] if w["k"] == "BinaryOperator" else (X.call_args(w)[1] if len(X.call_args(w)) > 1 else None)
+            if r is None:
+                continue
+            n += 1
+            rk = X.re_strip(X.key(r, f))
+            ok = rk in applied
+            rep.add(rid, "%s|%s" % (f.q, sub), f.loc(w), "%s remembers `%s = %s`; communicate_forces() applies %s" % (f.q, sub, rk, sorted(applied)), ok,
+                    detail="the part of the applied force that is left out stays inside the 'system' force that ABF and TI accumulate", func=f.q)
+    if n < 1:
+        rep.add(rid, "remember|%s" % sub, props.loc(), "`%s` is subtracted from ft but never assigned from the applied force" % sub, False, func=props.q)
+
+
 def run(F, rep, tier):
+    r6(F, rep)
     r1(F, rep)
     r2(F, rep)
     r3(F, rep)
